@@ -16,7 +16,7 @@ def hw_specs(tier, rng, n=None):
     acc = []
     for sp in families.accel_specs(stripped=False, names=["sigma", "extensor", "outerspace", "gamma"]):
         acc.append(dict(sp, hw=True, family=sp["family"] + "-metrics", plain_yaml=families.strip_sections(sp["yaml"], spacetime=False)))
-    return acc + hwfamily.hw_core() + sample(hwfamily.gen_hw, rng, n or (120 if q else 800)) + sample(hwfamily.gen_hw_cascade, rng, (n or 100) // 5 if q else 150)
+    return acc + hwfamily.hw_core() + sample(hwfamily.gen_hw, rng, n or (120 if q else 800)) + sample(hwfamily.gen_hw_cascade, rng, (n or 100) // 5 if q else 150) + sample(hwfamily.gen_hw_merger_cascade, rng, 16 if q else 150)
 
 
 def run(tier, rep):
